@@ -269,7 +269,7 @@ func c14Handlers(w *World, r *Report) {
 			closed := false
 			for _, ev := range e.State.Events {
 				c := ev.(ssa.CallInstruction)
-				if t := closeTarget(w, c); t != nil {
+				for _, t := range closeTargetsAll(w, c) {
 					for _, root := range rootsOf(w, t) {
 						if root == ssa.Value(conn) {
 							closed = true
